@@ -1,3 +1,3 @@
 # properties not (yet) claimed by a check; entries disappear as checks are registered
-for _p in ["C13","C18","C19","C20"]:
+for _p in ["C18","C19","C20"]:
     NA[_p] = "check under construction in this round: no static rule registered yet (see DESIGN.md §5 for the planned structural clauses)"
